@@ -246,6 +246,7 @@ HARNESSES = {
     "constprobe": dict(opt="-O1"),
     "parsefuzz": dict(opt="-O1", sanitize=True, compiler="clang++-14"),
     "lifetime": dict(opt="-O1", sanitize=True, compiler="clang++-14"),
+    "engines": dict(opt="-O1"),
     "json": dict(opt="-O1", sanitize=True, compiler="clang++-14", flags=["-fno-sanitize=signed-integer-overflow"]),
     "stl": dict(opt="-O1", sanitize=True, compiler="clang++-14"),
 }
